@@ -71,7 +71,10 @@ func GetAdaptedReDKG(originalDKG *types.ReDKG) (*types.ReDKG, error) {
 		return json.Unmarshal(m.Data, &deal) == nil && len(deal.Deal) > 0
 	}
 	for _, m := range originalDKG.Messages {
-		if _, found := fixedSenders[m.SenderAddr]; !found && fsm.Event(m.Event) == dkg_proposal_fsm.EventDKGDealConfirmationReceived && signedBySender(m) {
+		// (only lines of the round that is reinitialised: the board may hold an earlier attempt of
+		// the same participants, and its deals are not this round's)
+		if _, found := fixedSenders[m.SenderAddr]; !found && m.DkgRoundID == originalDKG.DKGID &&
+			fsm.Event(m.Event) == dkg_proposal_fsm.EventDKGDealConfirmationReceived && signedBySender(m) {
 			fixedSenders[m.SenderAddr] = struct{}{}
 			workAroundMessage, err := createMessage(m)
 			if err != nil {
